@@ -1,0 +1,33 @@
+// Add-only test shim (build tag verif): read-only views of the lookup tables
+// held by Decoder and Encoder, and of the Reader's bit-buffer state, for an
+// external verification harness. Nothing here is compiled in a normal build.
+
+//go:build verif
+// +build verif
+
+package prefix
+
+// VerifDump returns a copy of the decoder's tables and parameters.
+func (pd *Decoder) VerifDump() []uint32 {
+	out := []uint32{pd.chunkMask, pd.linkMask, pd.chunkBits, pd.MinBits, pd.NumSyms, uint32(len(pd.chunks)), uint32(len(pd.links))}
+	out = append(out, pd.chunks...)
+	for _, l := range pd.links {
+		out = append(out, uint32(len(l)))
+		out = append(out, l...)
+	}
+	return out
+}
+
+// VerifDump returns a copy of the encoder's table and parameters.
+func (pe *Encoder) VerifDump() []uint32 {
+	out := []uint32{pe.chunkMask, pe.NumSyms, uint32(len(pe.chunks))}
+	return append(out, pe.chunks...)
+}
+
+// VerifState returns (bufBits, numBits, Offset) of the Reader.
+func (pr *Reader) VerifState() (uint64, uint, int64) { return pr.bufBits, pr.numBits, pr.Offset }
+
+// VerifCheck exposes the internal code checks.
+func (pc PrefixCodes) VerifCheck() (lengths, prefixes, canonical bool) {
+	return pc.checkLengths(), pc.checkPrefixes(), pc.checkCanonical()
+}
